@@ -1909,3 +1909,65 @@ Proof.
     rewrite Hh. reflexivity.
   - unfold flags_of, set_path, has_opaque_path. cbn [uhost port query fragment path is_some]. rewrite Hh. reflexivity.
 Qed.
+
+(* ---------------------------------------------------------------------------------- *)
+(* url_serializer (the writer a PARSE uses): the path is written directly into norm_url_ *)
+(* ---------------------------------------------------------------------------------- *)
+
+(* first segment: start_part(PATH) from the last written part m-1 >= HOST_START, "/", the text, save_part, counter *)
+Lemma ser_start_part_tgt s k : s_tgt (ser_start_part s k) = false.
+Proof.
+  unfold ser_start_part. destruct ((s_last s =? P_PATH)%nat && (k =? P_PATH)%nat); [reflexivity|].
+  repeat match goal with |- context [let '(_, _) := ?x in _] => destruct x end. reflexivity.
+Qed.
+
+Lemma ser_path_push_first ps m f c seg s0 :
+  PW ps m -> (5 <= m <= 8)%nat -> s_r s0 = conc ps m f c -> s_last s0 = (m - 1)%nat ->
+  let s1 := v_save_path_segment false (do_append (v_start_path_segment false s0) seg) in
+  s_r s1 = conc (setp ps P_PATH (47 :: seg)) 9 f (c + 1) /\ s_last s1 = P_PATH.
+Proof.
+  intros HPW Hm Hr Hl.
+  pose proof (start_append_save ps m f c 8 (47 :: seg) s0 HPW ltac:(lia) ltac:(lia) Hr Hl) as Hsas. cbv zeta in Hsas.
+  destruct Hsas as [Hsr Hsl]. cbv zeta.
+  unfold v_save_path_segment, v_start_path_segment, v_start_part, v_save_part. change P_PATH with 8%nat.
+  pose proof (ser_start_part_tgt s0 8) as Htg.
+  destruct (ser_start_part s0 8) as [r1 fl la us st pse cu tg]. cbn [s_tgt] in Htg. subst tg.
+  unfold do_append, ser_save_part, w_r, app_norm, w_norm, set_e, w_ends, w_segs in *.
+  cbn [s_tgt s_r s_last s_file s_use s_strp s_pse s_curr r_norm r_ends r_flags r_segs] in *.
+  change (sepc 8 ++ 47 :: seg) with (47 :: seg) in Hsr. subst la.
+  rewrite <- app_assoc. cbn [app]. split; [|reflexivity].
+  unfold conc in *. inversion Hsr as [[Hn He Hf Hc]]. reflexivity.
+Qed.
+
+(* further segments: "continue on path" *)
+Lemma ser_path_push_next ps f c seg s0 :
+  PW ps 9 -> s_r s0 = conc ps 9 f c -> s_last s0 = P_PATH ->
+  let s1 := v_save_path_segment false (do_append (v_start_path_segment false s0) seg) in
+  s_r s1 = conc (setp ps P_PATH (nth 8 ps [] ++ 47 :: seg)) 9 f (c + 1) /\ s_last s1 = P_PATH.
+Proof.
+  intros HPW Hr Hl. pose proof HPW as [Hlen Hn Hsch Htail]. cbv zeta.
+  unfold v_save_path_segment, v_start_path_segment, v_start_part, v_save_part, ser_start_part.
+  rewrite Hl. change (P_PATH =? P_PATH)%nat with true. cbn [andb].
+  destruct s0 as [r0 fl la us st pse cu tg]. cbn [s_r s_last] in Hr, Hl. subst r0 la.
+  unfold do_append, ser_save_part, w_r, w_tgt, app_norm, w_norm, set_e, w_ends, w_segs.
+  cbn [s_tgt s_r s_last s_file s_use s_strp s_pse s_curr r_norm r_ends r_flags r_segs conc].
+  split; [|reflexivity]. change P_PATH with 8%nat. set (P := nth 8 ps []).
+  assert (Hnorm : concat ps = concat (firstn 8 ps) ++ P).
+  { rewrite (concat_split ps 8) at 1. f_equal. rewrite (skipn_nth_cons ps 8) by lia. cbn [concat]. fold P.
+    rewrite (concat_skipn_nil ps 9 9 Htail) by lia. apply app_nil_r. }
+  set (ps1 := setp ps 8 (P ++ 47 :: seg)).
+  assert (Hl1 : length ps1 = 11%nat) by (unfold ps1, setp; rewrite splice_length; lia).
+  assert (Hc1 : concat ps1 = (concat ps ++ [47]) ++ seg).
+  { unfold ps1, setp. rewrite splice_concat, (concat_skipn_nil ps 9 9 Htail) by lia. rewrite app_nil_r, Hnorm, <- !app_assoc. reflexivity. }
+  unfold conc. f_equal; [symmetry; exact Hc1|].
+  apply (nth_ext _ _ 0 0); [rewrite upd_length, !ends_of_length; lia|].
+  intros j Hj. rewrite upd_length, ends_of_length in Hj by lia.
+  rewrite nth_upd, ends_of_length, !nth_ends_of by lia.
+  destruct (Nat.ltb_spec j (length ps)); [|lia]. destruct (Nat.eqb_spec j 8) as [->|Hne]; cbn [andb].
+  - destruct (Nat.ltb_spec 8 9); [|lia].
+    assert (Ht1 : forall k, (9 <= k)%nat -> nth k ps1 [] = []).
+    { intros k Hk. unfold ps1. rewrite nth_setp by lia. destruct (Nat.eqb_spec k 8); [lia|]. apply Htail. exact Hk. }
+    rewrite (pre_tail ps1 9 9 Ht1) by lia. rewrite Hc1. reflexivity.
+  - destruct (Nat.ltb_spec j 9); [|reflexivity].
+    unfold ps1, setp. rewrite pre_splice by (lia || (intro; lia)). destruct (Nat.leb_spec (S j) 8); [reflexivity|lia].
+Qed.
